@@ -65,7 +65,9 @@ def run(ctx):
         if has_plugin:
             for _ in range(rng.choice([0, 0, 1, 2, 5])):
                 core.insert(rng.randrange(len(core) + 1),
-                            ('plugin', rng.randrange(0, 300), rng.choice(['ch', 'mod:x']),
+                            ('plugin', rng.choice([rng.randrange(0, 300), rng.randrange(0, 300), 2 ** 31 - 1, 2 ** 31,
+                                                   2 ** 32 - 1, rng.randrange(2 ** 31, 2 ** 32)]),   # a Java int on the wire
+                             rng.choice(['ch', 'mod:x']),
                              bytes(rng.randrange(256) for _ in range(rng.choice([0, 3])))))
         # a plugin request whose packet is EXACTLY as long as the announced threshold (vanilla deflates it)
         thr_at = next((i for i, s_ in enumerate(core) if s_[0] == 'compress' and s_[1] in (64, 256)), None)
@@ -337,7 +339,7 @@ def run(ctx):
         v = [x for x in versions if x >= 385][trial % len([x for x in versions if x >= 385])]
         cx = C.ConnectionContext(protocol_version=v)
         datas = [rng.choice([b'', b'', b'ok', bytes(rng.randrange(256) for _ in range(5))]) for _ in range(rng.randint(1, 3))]
-        mids = rng.sample(range(1, 200), len(datas))
+        mids = rng.sample(list(range(1, 200)) + [2 ** 31, 2 ** 32 - 1, 2 ** 31 + 77], len(datas))
         script = []
         if trial % 3 == 1:
             script.append(('compress', rng.choice([0, 64])))
@@ -375,6 +377,52 @@ def run(ctx):
             ctx.violation('protocol %d: a user handler answers plugin requests %r with payloads %r: the server received %r (state %s, errors %r)'
                           % (v, mids, datas, seen, reactor, excs[:1]), {'version': v, 'payloads': [d_.hex() for d_ in datas]},
                           key={'kind': 'plugin-handler', 'version': v, 'empty': any(d_ == b'' for d_ in datas)})
+    # ---- a server with MANY plugin requests in flight at once (mod-loader handshakes do not wait for one answer before
+    # sending the next request): more than one networking-loop batch; each answered exactly once, in order, then play
+    for trial in range(ctx.scale(6, 30)):
+        v = [x for x in versions if x >= 385][trial % len([x for x in versions if x >= 385])]
+        cx = C.ConnectionContext(protocol_version=v)
+        nreq = rng.choice([49, 50, 51, 52, 75, 101, 120])
+        mids = [rng.randrange(0, 2 ** 20) for _ in range(nreq)]
+        takeover = trial % 2 == 1
+        script = ([('compress', 64)] if trial % 3 == 0 else []) + [('plugin', m_, 'b:c', b'x' * (k % 3)) for k, m_ in enumerate(mids)] \
+            + [('success',)]
+        cfg = {'version': v, 'script': script, 'rsa': '1024',
+               'uuid_binary': list(cb.login.LoginSuccessPacket.get_definition(cx)[0].values())[0].__name__ == 'UUID'}
+        if sb.login.LoginStartPacket.get_id(cx) != 0:
+            cfg['login_ids'] = dict(disconnect=cb.login.DisconnectPacket.get_id(cx), encreq=cb.login.EncryptionRequestPacket.get_id(cx),
+                                    success=cb.login.LoginSuccessPacket.get_id(cx), compress=cb.login.SetCompressionPacket.get_id(cx),
+                                    start=sb.login.LoginStartPacket.get_id(cx), encresp=sb.login.EncryptionResponsePacket.get_id(cx),
+                                    plugin=cb.login.PluginRequestPacket.get_id(cx), plugresp=sb.login.PluginResponsePacket.get_id(cx))
+        excs, offered = [], []
+        with simnet.Net(lambda s_: RefServer(s_, cfg)) as net:
+            conn = C.Connection('h', 1, username='u', allowed_versions={v}, handle_exception=lambda e, i: excs.append(e))
+            conn.register_packet_listener(lambda pkt: offered.append(pkt.message_id), cb.login.PluginRequestPacket)
+            if takeover:
+                def take_over(pkt):
+                    conn.write_packet(sb.login.PluginResponsePacket(message_id=pkt.message_id, data=b'k'))
+                    raise IgnorePacket
+                conn.register_packet_listener(take_over, cb.login.PluginRequestPacket, early=True)
+            conn.connect()
+            net.run_threads()
+            reactor = type(conn.reactor).__name__
+        srv = cfg['servers'][0]
+        pr_id = cfg.get('login_ids', {}).get('plugresp', 2)
+        seen = []
+        for st, pid, payload, _e, _c in srv.frames:
+            if pid == pr_id and st in ('login', 'play') and payload:
+                mid, q = rc.read_varint(payload, 0)
+                seen.append((mid, payload[q:]))
+        want = [(m_, b'\x01k' if takeover else b'\x00') for m_ in mids]
+        ctx.case(('plugin-burst', v, nreq, takeover))
+        ctx.count('plugin-burst.%d' % nreq)
+        if seen != want or excs or reactor != 'PlayingReactor' or (not takeover and offered != mids):
+            firstbad = next((k for k in range(nreq) if k >= len(seen) or seen[k] != want[k]), None)
+            ctx.violation('protocol %d: %d plugin requests in flight at once (%s): %d answers reached the server, first difference at request '
+                          '#%r; requests offered to an ordinary listener: %d; state %s, errors %r'
+                          % (v, nreq, 'user handler answers' if takeover else 'default answers', len(seen), firstbad, len(offered),
+                             reactor, excs[:1]), {'version': v, 'requests': nreq, 'takeover': takeover},
+                          key={'kind': 'plugin-burst', 'n': nreq, 'takeover': takeover})
     # ---- two logins on ONE Connection: the first ends in a login disconnect whose exception handler
     # reconnects (the documented auto-reconnect pattern); nothing negotiated in session 1 may apply to
     # session 2 before session 2's own announcements
